@@ -200,7 +200,7 @@ class Session:
             self.scale_holder[0] = sched[self.iteration % len(sched)]
         self.iteration += 1
         for _ in range(self.cfg['acc']):
-            self.fwd_bwd(True, batch=(self.rng.randint(1, 8) if vary_batch else None))
+            self.fwd_bwd(True, batch=((self.rng.choice([129, 200, 257]) if self.rng.random() < 0.03 else self.rng.randint(1, 8)) if vary_batch else None))
         scale = self.scale_holder[0]
         if scale != 1.0:
             with torch.no_grad():
